@@ -4,8 +4,9 @@
    The user function fn, its result type A and the is_leaf predicate are universally quantified everywhere. *)
 From Coq Require Import ZArith List String Bool Permutation.
 Import ListNotations.
-From TD Require Import Model.C20_Apply Model.C20_Sched Model.C20_Spec
-     Proofs.C20_SpecP Proofs.C20_FrameP Proofs.C20_SchedP Proofs.C20_WitnessP.
+From TD Require Import Model.C20_Apply Model.C20_Sched Model.C20_Spec Model.C20_Lazy
+     Proofs.C20_SpecP Proofs.C20_FrameP Proofs.C20_SchedP Proofs.C20_WitnessP
+     Proofs.C20_LazyP Proofs.C20_LazyMtP Proofs.C20_RaiseP Proofs.C20_LazyWitnessP.
 Open Scope string_scope.
 
 (* ------------------------------------------------------------------ apply_spec *)
@@ -162,3 +163,234 @@ Example C20_ex_former_front_defects :
       exists m f, front Z o (fn_of []) false false self_f [] (Some out_f) None = Ok (Some (Node (Old 30%Z) m f))
                   /\ fget Z f "t" = Some (NonT New 5%Z m0)).
 Proof. exact former_front_defects. Qed.
+
+(* ================================================================== lazy stacks (Model/C20_Lazy.v) *)
+(* lazy_apply_spec: for every stack dim, member count, other operands in any representation (a lazy stack along the same
+   or along another dim, a dense tensordict: [wf_operand] only says that the members of a lazy operand are its slices
+   along ITS stack dim), out= a lazy stack (plain or inside a tensorclass), names=, every option point that the lazy code
+   accepts and every function: the stack that is returned has self's stack dim and member count, and member i of it is,
+   as a plain nested dict, what the reference gives for (member i of self, the i-th slices of the other operands along
+   self's stack dim, member i of out) — in place, a member for which the reference gives None is left as it is. *)
+Theorem C20_lazy_apply_spec :
+  forall A (o : opts) fn con (self : lstack A) others out names ob sd nm ms,
+    Forall (wf_operand A (l_sd A self)) others ->
+    lz_apply_nest A o fn con self others out names = Ok (LRStack A ob sd nm ms) ->
+    sd = l_sd A self /\ ob = (if o_inplace o then l_obj A self else New)
+    /\ List.length ms = List.length (l_members A self)
+    /\ forall i so sm sf t,
+         nth_error (l_members A self) i = Some (Node so sm sf) -> wf_keys A sf = true -> nth_error ms i = Some t ->
+         let oth := map (fun op => op_slice A op (l_sd A self) i) others in
+         let out_i := out_at A (out_members A out) i in
+         ref_apply A (mo o) fn con (Node so sm sf) oth out_i = ROk (Some (erase_t A t))
+         \/ (o_inplace o = true /\ ref_apply A (mo o) fn con (Node so sm sf) oth out_i = ROk None
+             /\ erase_t A t = erase_t A (Node so sm sf)).
+Proof. exact lazy_apply_spec. Qed.
+Print Assumptions C20_lazy_apply_spec.
+
+(* None is returned only when the reference drops every member *)
+Theorem C20_lazy_apply_none :
+  forall A (o : opts) fn con (self : lstack A) others out names,
+    Forall (wf_operand A (l_sd A self)) others ->
+    lz_apply_nest A o fn con self others out names = Ok (LRNone A) ->
+    forall i so sm sf, nth_error (l_members A self) i = Some (Node so sm sf) -> wf_keys A sf = true ->
+      ref_apply A (mo o) fn con (Node so sm sf) (map (fun op => op_slice A op (l_sd A self) i) others)
+                (out_at A (out_members A out) i) = ROk None.
+Proof. exact lazy_apply_none. Qed.
+Print Assumptions C20_lazy_apply_none.
+
+(* the refusals of the lazy code, stated explicitly: in place with a truthy batch_size / device / names -> ValueError;
+   an out= that is not a lazy stack -> ValueError; a call that returns went through neither; batch_size= without out= is
+   handed to TensorDict._apply_nest on the stacked view (a dense result of that batch size: [LRView], not modelled
+   further) and nothing else is; not in place, a mix of dropped and kept members -> RuntimeError *)
+Theorem C20_lazy_refusals :
+  forall A (o : opts) fn con (self : lstack A) others out names,
+    l_members A self <> [] ->
+    (refuse_inplace o names = true -> lz_apply_nest A o fn con self others out names = Raised EValue)
+    /\ (refuse_inplace o names = false -> out = Some (OutOther A) ->
+          lz_apply_nest A o fn con self others out names = Raised EValue)
+    /\ (forall r, lz_apply_nest A o fn con self others out names = Ok r ->
+          refuse_inplace o names = false /\ out <> Some (OutOther A)
+          /\ ((exists m, r = LRView A m) <-> (out = None /\ o_bs o <> None))
+          /\ (forall m, r = LRView A m -> Some (m_bs m) = o_bs o))
+    /\ (o_inplace o = false -> forall oth rs,
+          refuse_inplace o names = false -> out <> Some (OutOther A) -> (out <> None \/ o_bs o = None) ->
+          unbind_all A (l_sd A self) others = Ok oth ->
+          lazy_members A (mo o) fn con [] (l_members A self) oth (out_members A out) = Ok rs ->
+          existsb is_none (map snd rs) = true -> forallb is_none (map snd rs) = false ->
+          lz_apply_nest A o fn con self others out names = Raised ERuntime).
+Proof. exact lazy_refusals. Qed.
+Print Assumptions C20_lazy_refusals.
+
+(* LazyStackedTensorDict.apply_: self is returned; member i keeps its objects, keys and leaf storages and holds what the
+   reference gives for an in-place call on (member i, the i-th slices of the other operands) *)
+Theorem C20_lazy_apply__spec :
+  forall A (o : opts) fn con names (self : lstack A) others ob sd nm ms,
+    Forall (wf_operand A (l_sd A self)) others ->
+    lz_apply_ A o fn con names self others = Ok (LRStack A ob sd nm ms) ->
+    ob = l_obj A self /\ sd = l_sd A self /\ nm = l_name A self /\ List.length ms = List.length (l_members A self)
+    /\ forall i so sm sf t,
+         nth_error (l_members A self) i = Some (Node so sm sf) -> wf_keys A sf = true -> nth_error ms i = Some t ->
+         let oth := map (fun op => op_slice A op (l_sd A self) i) others in
+         shape_t A t = shape_t A (Node so sm sf)
+         /\ (ref_apply A (ao o) fn con (Node so sm sf) oth None = ROk (Some (erase_t A t))
+             \/ (ref_apply A (ao o) fn con (Node so sm sf) oth None = ROk None /\ t = Node so sm sf)).
+Proof. exact lazy_apply__spec. Qed.
+Print Assumptions C20_lazy_apply__spec.
+
+(* ------------------------------------------------------------------ lazy stacks in a thread pool *)
+(* the statement at full strength: without batch_size=, whenever the flat phase succeeds and every task completes, the
+   thread-pool form of a lazy stack agrees with the single-threaded one ([agree]: same result, same exception class —
+   except that failing to re-stack a mix of None and results is a RuntimeError there and the constructor's own
+   AttributeError / TypeError here) *)
+Definition C20_lazy_mt_equals_st_full_statement : Prop :=
+  forall A (o : opts) fn con propagate (self : lstack A) others out names pi oth tasks lfss,
+    o_bs o = None ->
+    unbind_all A (l_sd A self) others = Ok oth ->
+    lz_flat A o con (l_members A self) oth 0%nat = Ok (tasks, lfss) ->
+    (forall id, (id < List.length tasks)%nat -> In id pi) ->
+    agree (lz_front A o fn con propagate self others out names) (lz_mt_front A o fn false con propagate self others out names pi).
+
+(* ([lz_mt_front]'s first argument: whether the repair of C20-h is in the tree; false = /repo as it is.)
+   proved when out= is not a lazily stacked tensorclass (C20-h; no such hypothesis once it is repaired) and, as for regular tensordicts (C20-g), when no member
+   holds a non-tensor entry or the call is neither in place nor given out= *)
+Theorem C20_lazy_mt_equals_st_partial :
+  forall A (o : opts) fn fixh con propagate (self : lstack A) others out names pi oth tasks lfss,
+    o_bs o = None ->
+    (fixh = false -> forall ms, out <> Some (OutLazy A true ms)) ->
+    unbind_all A (l_sd A self) others = Ok oth ->
+    lz_flat A o con (l_members A self) oth 0%nat = Ok (tasks, lfss) ->
+    (forall id, (id < List.length tasks)%nat -> In id pi) ->
+    (o_inplace o = true -> forallb (nf_t A) (l_members A self) = true) ->
+    (out <> None -> forallb (nf_t A) (l_members A self) = true) ->
+    agree (lz_front A o fn con propagate self others out names) (lz_mt_front A o fn fixh con propagate self others out names pi).
+Proof. exact lazy_mt_equals_st. Qed.
+Print Assumptions C20_lazy_mt_equals_st_partial.
+
+(* the full statement is false of the model and of /repo (finding C20-h): out= a lazily stacked tensorclass is written by
+   the single-threaded form and refused (ValueError) by the thread-pool form *)
+Theorem C20_lazy_mt_equals_st_refuted :
+  exists (o : opts) fn (self : lstack Z) out pi oth tasks lfss r,
+    o_bs o = None
+    /\ unbind_all Z (l_sd Z self) [] = Ok oth
+    /\ lz_flat Z o false (l_members Z self) oth 0%nat = Ok (tasks, lfss)
+    /\ (forall id, (id < List.length tasks)%nat -> In id pi)
+    /\ lz_front Z o fn false false self [] (Some out) None = Ok r
+    /\ lz_mt_front Z o fn false false false self [] (Some out) None pi = MRaised EValue
+    /\ lz_mt_front Z o fn true false false self [] (Some out) None pi = MOk r.      (* with the repair: the same result *)
+Proof.
+  destruct lazy_mt_tc_out_witness as ((r & H1 & H3) & H2).
+  exists base_opts, (fn_of []), self_l, out_tc, [0; 1; 2; 3]%nat. do 3 eexists. exists r.
+  split; [reflexivity|]. split; [reflexivity|]. split; [vm_compute; reflexivity|].
+  split; [|split; [assumption|split; assumption]].
+  intros id Hid. cbn in Hid. do 4 (destruct id as [|id]; [cbn; tauto|]). exfalso. do 4 apply Nat.succ_lt_mono in Hid. inversion Hid.
+Qed.
+Print Assumptions C20_lazy_mt_equals_st_refuted.
+
+(* batch_size= is refused by the thread-pool form of a lazy stack *)
+Theorem C20_lazy_mt_refuses_batch_size :
+  forall A (o : opts) fn fixh con propagate (self : lstack A) others out names pi b,
+    l_members A self <> [] -> o_bs o = Some b ->
+    lz_mt_front A o fn fixh con propagate self others out names pi = MRaised ERuntime.
+Proof. exact lazy_mt_refuses_batch_size. Qed.
+Print Assumptions C20_lazy_mt_refuses_batch_size.
+
+(* ------------------------------------------------------------------ non-vacuity (lazy stacks) *)
+(* a two-member stack, an operand stacked lazily along ANOTHER dim and one stacked along the same dim: inside the domain of
+   C20_lazy_apply_spec; member 0 is computed from the operand's slice 0 along self's stack dim (tensor 201), not from the
+   operand's own member 0 (tensor 901) *)
+Example C20_ex_lazy_spec :
+  Forall (wf_operand Z 0%nat) [op_x; op_y]
+  /\ exists r0 r1 f0,
+       lz_apply_nest Z base_opts (fn_of []) false self_l [op_x; op_y] None None = Ok (LRStack Z New 0%nat (Some "s") [r0; r1])
+       /\ r0 = Node New m0 f0
+       /\ fget Z f0 "a" = Some (Leaf New (VNew (1 + 11 + (10 + 201) + (10 + 401))%Z)).
+Proof. split; [exact ops_wf|exact example_lazy_spec]. Qed.
+Example C20_ex_lazy_out_names :
+  exists r0 r1 m f0,
+    lz_apply_nest Z base_opts (fn_of []) false self_l [op_y] (Some out_l) (Some (Some [Some "p"; Some "q"]))
+    = Ok (LRStack Z New 0%nat (Some "p") [r0; r1])
+    /\ r0 = Node (Old 600%Z) m f0 /\ m_names m = Some [Some "q"].
+Proof. exact example_lazy_out_names. Qed.
+Example C20_ex_lazy_none :
+  lz_apply_nest Z (with_fe base_opts None) (fn_of [11; 13; 111; 113]%Z) false self_l [] None None = Ok (LRNone Z).
+Proof. exact example_lazy_none. Qed.
+Example C20_ex_lazy_refusals :
+  l_members Z self_l <> []
+  /\ refuse_inplace (with_dev (with_inplace base_opts) (Some CPU)) None = true
+  /\ lz_apply_nest Z (with_dev (with_inplace base_opts) (Some CPU)) (fn_of []) false self_l [] None None = Raised EValue
+  /\ lz_apply_nest Z base_opts (fn_of []) false self_l [] (Some (OutOther Z)) None = Raised EValue
+  /\ lz_apply_nest Z (mkOpts false false (Some false) false false (Some [6%nat]) None false is_leaf_default) (fn_of []) false self_l [] None None
+     = Ok (LRView Z (mkMeta [6%nat] None None false))
+  /\ (exists oth rs,
+        unbind_all Z 0%nat [] = Ok oth
+        /\ lazy_members Z (mo (with_fe base_opts (Some true))) (fn_of [11; 13]%Z) false [] (l_members Z self_l) oth None = Ok rs
+        /\ existsb is_none (map snd rs) = true /\ forallb is_none (map snd rs) = false)
+  /\ lz_apply_nest Z (with_fe base_opts (Some true)) (fn_of [11; 13]%Z) false self_l [] None None = Raised ERuntime
+  /\ lz_apply_nest Z base_opts (fn_of []) false self_l [] (Some (OutLazy Z false [tdz 600])) None = Raised EIndex.
+Proof. exact example_lazy_refusals. Qed.
+Example C20_ex_lazy_mt :
+  exists oth tasks lfss,
+    unbind_all Z 0%nat [op_x; op_y] = Ok oth
+    /\ lz_flat Z base_opts false (l_members Z self_l) oth 0%nat = Ok (tasks, lfss)
+    /\ List.length tasks = 4%nat
+    /\ forallb (nf_t Z) (l_members Z self_l) = true
+    /\ exists r, lz_mt_front Z base_opts (fn_of []) false false false self_l [op_x; op_y] (Some out_l) None [3; 1; 0; 2]%nat = MOk r
+                 /\ lz_front Z base_opts (fn_of []) false false self_l [op_x; op_y] (Some out_l) None = Ok r.
+Proof. exact example_lazy_mt. Qed.
+Example C20_ex_lazy_apply_ :
+  exists r0 r1,
+    lz_apply_ Z base_opts (fn_of [113%Z]) false None self_l [op_x] = Ok (LRStack Z (Old 7%Z) 0%nat (Some "s") [r0; r1])
+    /\ shape_t Z r0 = shape_t Z (tdz 10) /\ r0 <> tdz 10.
+Proof. exact example_lazy_apply_. Qed.
+
+(* ================================================================== exception classes *)
+(* raises_iff at the root: [refusal] is the precondition on (options, out=) read off the documented contract — not in place,
+   out= must be an unlocked tensordict (RuntimeError) of the requested batch size (RuntimeError) and device (RuntimeError;
+   _fast_apply(checked=True) rewrites out's device instead, and fails with TypeError for device=None); out= a tensor has no
+   _get_str (AttributeError).  A refused pair raises exactly that class whatever the operands hold; a call that returns was
+   not refused; and a call that raises with an admissible pair raises from the loop over the items. *)
+Theorem C20_raises_root_iff :
+  forall A (o : opts) fn con propagate so sm sf (others : list (tree A)) out names,
+    (forall ob d m, out <> Some (NonT ob d m)) ->
+    (forall e, refusal A o out = Some e -> front A o fn con propagate (Node so sm sf) others out names = Raised e)
+    /\ (forall r, front A o fn con propagate (Node so sm sf) others out names = Ok r -> refusal A o out = None)
+    /\ (forall e, front A o fn con propagate (Node so sm sf) others out names = Raised e -> refusal A o out = None ->
+          exists init, level_init A o so sm sf out = Ok init
+                       /\ apply_items A o fn con [] sm sf others out names sf init false = Raised e).
+Proof. exact raises_root. Qed.
+Print Assumptions C20_raises_root_iff.
+
+(* KeyError is raised only when no default= was given — at any depth, for every option point *)
+Theorem C20_keyerror_only_without_default :
+  forall A (o : opts) fn con propagate (self : tree A) others out names,
+    front A o fn con propagate self others out names = Raised EKey -> o_default o = false.
+Proof. exact keyerror_only_without_default. Qed.
+Print Assumptions C20_keyerror_only_without_default.
+
+(* where the reference says KeyError, the call does not return *)
+Theorem C20_keyerror_when_reference_says :
+  forall A (o : opts) fn con propagate so sm sf (others : list (tree A)) out names,
+    wf_keys A sf = true ->
+    ref_apply A o fn con (Node so sm sf) others out = RKey ->
+    forall r, front A o fn con propagate (Node so sm sf) others out names <> Ok r.
+Proof. exact keyerror_when_reference_says. Qed.
+Print Assumptions C20_keyerror_when_reference_says.
+
+Example C20_ex_refusals :
+  refusal Z base_opts (Some out_locked) = Some ERuntime
+  /\ front Z base_opts (fn_of []) false false self_a [] (Some out_locked) None = Raised ERuntime
+  /\ refusal Z (with_bs base_opts [4%nat]) (Some out_cpu) = Some ERuntime
+  /\ refusal Z (with_dev base_opts (Some META)) (Some out_cpu) = Some ERuntime
+  /\ refusal Z (with_dev (with_checked base_opts) None) (Some out_cpu) = Some EType
+  /\ front Z (with_dev (with_checked base_opts) None) (fn_of []) false false self_a [] (Some out_cpu) None = Raised EType
+  /\ refusal Z (with_dev (with_checked base_opts) (Some META)) (Some out_cpu) = None
+  /\ refusal Z base_opts (Some (lf 5)) = Some EAttr
+  /\ refusal Z (with_inplace base_opts) (Some out_locked) = None.
+Proof. exact example_refusals. Qed.
+Example C20_ex_keyerror :
+  refusal Z base_opts None = None
+  /\ front Z base_opts (fn_of []) false false self_ex [other_ex] None None = Raised EKey
+  /\ o_default base_opts = false
+  /\ wf_keys Z self_ex_forest = true
+  /\ ref_apply Z base_opts (fn_of []) false self_ex [other_ex] None = RKey.
+Proof. exact example_keyerror. Qed.
